@@ -20,6 +20,8 @@ var Vocab = []string{"|", "(", ")", "[", "]", ",", ";", ".", "=", "==", "!=", "=
 	"\ufeff", "\ufffd", "\u2020", "\u0420", "\u010d", "三", "😊", "\u00a0", "\u2003", "\r", "\r\n", "\v", "\f",
 	"0x000000000000000ff", "0x10000000000000000", "`let`", "`$left`", "`count()`",
 	// string literals with an escape followed by a raw line break, and other multi-line oddities
+	// block-comment and other comment spellings of neighbouring languages, typographic quotes
+	"/*/", "/**/", "/* x */", "*/", "/*", "--", "-- x\n", "#x\n", "\u2018", "\u2019", "\u201c", "\u201d", "'a\u2019b'", "\"a\u201db\"", "```", "```a```", "@'a'", "@\"b",
 	// hexadecimal literals around and beyond 64 bits
 	"0x8000000000000000", "0xFFFFFFFFFFFFFFFFF", "0x1FFFFFFFFFFFFFFFF", "0x18000000000000000", "0xffffffffffffffff",
 	// numbers that stop inside their exponent
